@@ -138,7 +138,7 @@ func genC15Message(t *rapid.T) (*ScalarCase, string, string) {
 		c.Carrier = "tag"
 	}
 	key, _, _ := model.ParseItem(v.item)
-	c.T = maybeNamedDeep(t, c.T)
+	finishScalar(t, c)
 	if c.Carrier == "tag" && rapid.Bool().Draw(t, "decoy") {
 		// an earlier call on the same struct type that overrides the rule with another
 		// message (of the other label kind): the tag's own message must show afterwards
